@@ -19,6 +19,8 @@ def hour_pillar(day_pillar_idx, hour):
 
 
 def run(ctx):
+    from rules import shared
+    ctx.include('month_records', shared.month_records)   # leap table, solstice anchor, month memo, memo cells (shared, cached per source hash)
     I = ctx.interp(fuel=60000000)
     t = T(I)
     p = ctx.prog
